@@ -237,6 +237,55 @@ func execC20Type(c *child.Ctx, t int, r *ref.SplitMix64, extraBodies int) {
 	}
 }
 
+// execC20Stream: the same classification through the stream handler, where a message
+// follows others: after an MSM with a timestamp come other data, a frame of type t
+// and a cut-off frame; only MSM4/MSM7 messages may carry a timestamp.
+func execC20Stream(c *child.Ctx, t int, r *ref.SplitMix64) {
+	if t < 0 {
+		return
+	}
+	cj, _ := json.Marshal(typeCase{Type: t})
+	mt := []int{1074, 1077, 1084, 1087, 1094, 1097, 1124, 1127}[r.Intn(8)]
+	ts := uint(r.Range(1, 80000000))
+	first := timeFrame(r, mt, ts)
+	body := r.Bytes(r.Range(10, 40))
+	body[0], body[1] = byte(t>>4), byte(t<<4)|body[1]&0x0f
+	frame := ref.Frame(body)
+	var in []byte
+	in = append(in, first...)
+	if r.Chance(2, 3) {
+		in = append(in, gen.Junk(r).Bytes...)
+	}
+	in = append(in, frame...)
+	in = append(in, gen.Junk(r).Bytes...)
+	in = append(in, first[:r.Range(1, len(first)-1)]...)
+	defer func() {
+		if rr := recover(); rr != nil {
+			c.Violate("panic", fmt.Sprintf("panic while a stream with a type %d frame was processed: %v", t, rr), cj)
+		}
+	}()
+	msgs := runSequential(fixedStart, slog.LevelInfo, in)
+	sawT := false
+	for i := range msgs {
+		mm := &msgs[i]
+		_, is4 := c20MSM4[mm.MessageType]
+		_, is7 := c20MSM7[mm.MessageType]
+		if mm.MessageType == t {
+			sawT = true
+		}
+		if !is4 && !is7 && (mm.Timestamp != 0 || mm.SentAt != "" || mm.StartOfWeek != "") {
+			c.Violate("timestamp", fmt.Sprintf("in a stream, delivery %d (type %d, %d bytes, after a type %d message with timestamp %d) is not an MSM4/MSM7 but carries Timestamp=%d SentAt=%q StartOfWeek=%q",
+				i, mm.MessageType, len(mm.RawData), mt, ts, mm.Timestamp, mm.SentAt, mm.StartOfWeek), cj)
+			return
+		}
+	}
+	if !sawT {
+		c.Violate("framing", fmt.Sprintf("the stream handler did not deliver the type %d frame as that type", t), cj)
+		return
+	}
+	c.Count("stream_classifications_checked", 1)
+}
+
 func monC20(c *child.Ctx, replay json.RawMessage) {
 	r := ref.NewRand(c.Seed*295075147 + uint64(c.Batch)*314606869 + 20)
 	if replay != nil {
@@ -245,6 +294,7 @@ func monC20(c *child.Ctx, replay json.RawMessage) {
 		c.Begin(replay)
 		for i := 0; i < 20; i++ {
 			execC20Type(c, k.Type, r, 8)
+			execC20Stream(c, k.Type, r)
 		}
 		c.Eval(1, true)
 		return
@@ -256,6 +306,7 @@ func monC20(c *child.Ctx, replay json.RawMessage) {
 			continue
 		}
 		execC20Type(c, t, r, extra)
+		execC20Stream(c, t, r)
 		_, is4 := c20MSM4[t]
 		_, is7 := c20MSM7[t]
 		near := t >= 1070 && t <= 1140
